@@ -19,8 +19,7 @@ REPO = os.environ.get("VERIF_REPO", "/repo")
 HARNESS = os.path.join(VERIF, "harness")
 CACHE = os.path.join(VERIF, ".cache")
 GOSYM = os.path.join(VERIF, "bin", "gosym")
-GOENV = dict(os.environ, GOFLAGS="-mod=mod", GOPROXY="off", GOSUMDB="off", GOTOOLCHAIN="local",
-             GOCACHE=os.path.join(CACHE, "gocache"))
+GOENV = dict(os.environ, GOFLAGS="-mod=mod", GOPROXY="off", GOSUMDB="off", GOTOOLCHAIN="local")
 MODULE = "github.com/jackalLabs/canine-chain/v4"
 
 sys.path.insert(0, VERIF)
